@@ -35,7 +35,7 @@ RULE = ('worlds: 1-2 contexts with own or shared CacheManager/TimedCacheManager,
 ASSUMPTIONS = [
     'sources are built with Context._parallelize_partitions (explicit partitions); slicing is C01/C07',
     'user functions are pure and total: element-wise (map/filter/flatMap) or generator functions over the partition '
-    'iterator that consume their whole input when first pulled (mapPartitions/mapPartitionsWithIndex); partition '
+    'iterator that consume their whole input when first pulled (mapPartitions/mapPartitionsWithIndex, on any node incl. the source); partition '
     'functions that run eagerly at compute() time or stop consuming early are not modelled',
     'the clock is constant during one action and never goes backwards (virtual clock, advances are >= 0)',
     'pool = an in-process pool whose map() takes all task inputs first and runs the tasks in order '
@@ -442,10 +442,6 @@ def _rand_pipeline(rng, nctx, force_persist=True):
     marks = [rng.random() < 0.4 for _ in range(npos)]
     if force_persist and not any(marks):
         marks[rng.randrange(npos)] = True
-    if stages and stages[0][0] == PART and not marks[0]:
-        # a partition function directly on a parallelized source is handed the partition LIST, not an iterator
-        # (RDD.compute returns split.x()): outside the model, reported by extra_checks as a finding
-        stages[0] = (MAP, stages[0][1])
     for q in range(npos):
         if q > 0:
             out.append(stages[q - 1])
@@ -509,7 +505,7 @@ def _exhaustive(rng, tier):
     length <= 3 over: collect/first/take(1)/take(2) on the last node, collect on node 1, unpersist of
     each persisted node, advance(2), gc."""
     cases = []
-    stage_sets = [[(MAP, 0), (FILTER, 0)], [(MAP, 0), (PART, 0)], [(FLAT, 0), (MAP, 1)], [(FLAT, 0), (PART, 5)]]
+    stage_sets = [[(MAP, 0), (FILTER, 0)], [(MAP, 0), (PART, 0)], [(FLAT, 0), (MAP, 1)], [(PART, 4), (PART, 2)]]
     worlds = [([None], [(0, False)]), ([2], [(0, False)])]
     if tier == 'quick':
         stage_sets = stage_sets[:2]
@@ -558,6 +554,11 @@ CORPUS = [
      [(0, 0, 3, 0, 0), (0, 0, 3, 0, 0), (0, 0, 3, 3, 0)]),
     ([None], [(0, True)], [(0, [[1, 2, 3], [4]], [(PERSIST, 0), (PART, 4), (PERSIST, 1), (PART, 5)])],
      [(0, 0, 2, 2, 1), (0, 0, 4, 0, 0), (0, 0, 4, 0, 0), (0, 0, 2, 0, 0)]),
+    # partition functions (header + rest, next + rest) directly on the source, with and without persist in front
+    ([None], [(0, False)], [(0, [[1, 2, 3, 4], [5, 6, 7]], [(PART, 0), (PERSIST, 0)]),
+                            (0, [[1, 2, 3, 4], [5, 6, 7]], [(PERSIST, 0), (PART, 0)]),
+                            (0, [[1, 2, 3, 4], []], [(PART, 1)]), (0, [[1, 2, 3, 4], []], [(PERSIST, 1), (PART, 4)])],
+     [(0, 0, 1, 0, 0), (0, 1, 2, 0, 0), (0, 2, 1, 0, 0), (0, 3, 2, 0, 0), (0, 3, 2, 3, 0), (0, 2, 1, 2, 1)]),
     # timed manager through a pool: joined entries expire (the repaired defect)
     ([3], [(0, True)], [(0, [[1], [2]], [(MAP, 0), (PERSIST, 0)])],
      [(0, 0, 2, 0, 0), (2, 4), (3, 0), (0, 0, 2, 0, 0)]),
@@ -747,8 +748,9 @@ def _fault_checks(rng, tier):
 
 
 def _source_iterator_check():
-    """persist() directly after a parallelized source, in front of a partition function that consumes its
-    iterator in two steps: RDD.compute hands the partition LIST to the function, PersistedRDD.compute an iterator."""
+    """Regression case (finding of this check, repaired in /repo: RDD.compute used to hand the partition LIST to
+    a partition function applied directly to a parallelized source): persist() inserted between the source and
+    mapPartitions must not change the result."""
     for k, pf in enumerate(LIB_PART):
         for parts in ([[1, 2, 3, 4], [5, 6, 7]], [[2], [3, 4]]):
             outs = []
